@@ -1348,3 +1348,94 @@ def _replay_create_from_unordered(inputs, ghost=None):
 
 
 CUSTOM["cooler.create._create:create_from_unordered"] = _replay_create_from_unordered
+
+# ---------------------------------------------------------------- fileops listing functions over real files (C15, C17, C09)
+_LIST_SHAPES = {
+    "nested": (["/a", "/a/chroms", "/a/inner", "/a/inner/deep", "/b"], ["/a/chroms/name", "/data"]),
+    "empty": ([], []),
+    "mcool": (["/resolutions", "/resolutions/1000", "/resolutions/5000"], []),
+    "scool": (["/chroms", "/bins", "/cells", "/cells/7", "/cells/control", "/cells/10b"], []),
+}
+
+
+def _replay_listing(fn_name):
+    """real HDF5 files with the ghost tree's shape: first the counter-model's format attributes, then every assignment of
+    {cooler magic, mcool/scool magic on the root, something else, no attribute} the adapter enumerates for that shape (at most
+    200 files); the real function is judged against the property: listed = exactly the groups carrying the cooler format."""
+    def run(inputs, ghost=None):
+        import itertools
+        import os
+        import shutil
+        import tempfile
+        import h5py
+        import numpy as np
+        from cooler import fileops
+        from cooler.util import natsorted
+        g = {k: conv(v) for k, v in (ghost or {}).items()}
+        shape = g.get("shape") or "nested"
+        groups, dsets = _LIST_SHAPES.get(shape, _LIST_SHAPES["nested"])
+        allg = ["/"] + groups
+        MAG, SC, MC = "HDF5::Cooler", "HDF5::SCOOL", "HDF5::MCOOL"
+        cases = []
+        model = {p: g.get("fmt:" + p) for p in allg}
+        if any(isinstance(x, str) for x in model.values()):
+            cases.append(("counter-model", {p: (x if isinstance(x, str) and x else None) for p, x in model.items()}))
+        rootopts = [MAG, None] + ([SC] if shape == "scool" else []) + ([MC] if shape == "mcool" else [])
+        import random
+        combos = list(itertools.product(rootopts, *[[MAG, "other", None]] * len(groups)))
+        random.Random(5).shuffle(combos)
+        special = SC if shape == "scool" else MC if shape == "mcool" else MAG
+        front = [tuple([special] + [MAG] * len(groups)),
+                 tuple([special] + [MAG if (gp.startswith("/cells/") or gp.startswith("/resolutions/")) else None for gp in groups]),
+                 tuple([MAG] + [MAG] * len(groups))]
+        for k, c in enumerate(front + combos[:200]):
+            cases.append((f"assignment#{k}", dict(zip(allg, c))))
+        d = tempfile.mkdtemp(prefix="pyvc_list_")
+        viol, tried = [], 0
+        try:
+            for label, fmts in cases:
+                tried += 1
+                p = os.path.join(d, f"t{tried}.h5")
+                with h5py.File(p, "w") as f:
+                    for gp in groups:
+                        f.require_group(gp)
+                    for ds in dsets:
+                        f.create_dataset(ds, data=np.arange(3))
+                    for gp, fm in fmts.items():
+                        if fm is not None:
+                            f[gp].attrs["format"] = fm
+                colls = [gp for gp in allg if fmts.get(gp) == MAG]
+                try:
+                    if fn_name == "list_coolers":
+                        got, want = fileops.list_coolers(p), natsorted(colls)
+                    elif fn_name == "is_multires_file":
+                        first = "/resolutions/1000"
+                        got = fileops.is_multires_file(p)
+                        want = shape == "mcool" and fmts.get("/") == MC and fmts.get(first) == MAG
+                    elif fn_name == "is_scool_file":
+                        cells = [gp for gp in groups if gp.startswith("/cells/")]
+                        got = fileops.is_scool_file(p)
+                        want = shape == "scool" and fmts.get("/") == SC and all(fmts.get(c) == MAG for c in cells) and bool(cells)
+                    else:
+                        cells = [gp for gp in groups if gp.startswith("/cells/")]
+                        is_sc = shape == "scool" and fmts.get("/") == SC and all(fmts.get(c) == MAG for c in cells) and bool(cells)
+                        try:
+                            got = fileops.list_scool_cells(p)
+                        except OSError:
+                            got = "OSError"
+                        want = natsorted([c for c in colls if c != "/"]) if is_sc else "OSError"
+                except Exception as e:
+                    viol.append(f"[{label}] {fn_name} raised {type(e).__name__}: {e} (formats {fmts})")
+                    continue
+                if got != want:
+                    viol.append(f"[{label}] {fn_name} -> {got}, expected {want} (formats {fmts})")
+                if len(viol) >= 6:
+                    break
+        finally:
+            shutil.rmtree(d, ignore_errors=True)
+        return {"inputs_used": {"tree": shape, "files_tried": tried}, "returned": None, "violations": viol[:6], "violates_contract": bool(viol)}
+    return run
+
+
+for _fn in ("list_coolers", "list_scool_cells", "is_scool_file", "is_multires_file"):
+    CUSTOM["cooler.fileops:" + _fn] = _replay_listing(_fn)
